@@ -17,7 +17,10 @@ P = {
          'propagation of compute_fields (tables_correct, propagation_correct; both refuted for the pinned code), C01_partial (a run whose '
          'decidable certificate holds returned the named region). NOT proved: that the certificate holds for every valid input (the global '
          'Martinez-Rueda invariant); instead the certificate is evaluated on every explored input on the implementation\'s own result. '
-         'Rounded results are judged within 1e-9 x magnitude by an unverified exact-rational oracle.', '§7 C01',
+         'Rounded results are judged within 1e-9 x magnitude by an unverified exact-rational oracle. FULL statement proved on one sub-domain: '
+         'when the bounding-box shortcut is taken (exact instance, closed rings, operands whose polygon reading is their even-odd '
+         'reading) the result is the named region at every point of the plane (C01_shortcut_returns_named_region, via the parity lemma '
+         'for closed rings).', '§7 C01',
          'Coq: verified exact slab/scene checker + local-rule theorems; bit-exact model/implementation correspondence; per-run certification'),
  'C02': ('proof', 'As C01: cert02_reading_sound and check_scene_sound are proved (polygon reading = even-odd reading, holes inside their '
          'exterior, holes and polygons pairwise disjoint, decided for every point), twin_not_selected, F1 refutation/repair witnesses by '
@@ -26,55 +29,79 @@ P = {
  'C03': ('proof', 'Partial proof + correspondence of outcomes in both build profiles and both float types + large inputs. Proved: the bubble sort '
          'of order_events returns a sorted permutation whenever the event order is asymmetric on the events sorted (and provably diverges on '
          'an order with a pair that is less both ways), the std BinaryHeap algorithms never lose or duplicate an element whatever the '
-         'comparison answers and are a priority queue under a total preorder, a certified run returned within its event budget. NOT proved: '
-         'the quadratic event bound and absence of panics for all valid inputs; both are observed per run (budget hook, catch_unwind, child '
-         'processes).', '§7 C03', 'Coq: termination/container theorems; outcome correspondence release+debug, f64+f32; event-budget hook'),
+         'comparison answers and are a priority queue under a preorder, a certified run returned within its event budget; and — an '
+         'invariant of the whole sweep loop, for every numeric instance and every input — every event keeps a mutual partner, so the unwrap '
+         'in possible_intersection.rs cannot fail and the sweep stage has no panic site in release builds apart from the hook\'s budget '
+         '(C03_sweep_release_panic_free). NOT proved: the quadratic event bound and absence of the index panic of connect_edges for all '
+         'valid inputs; both are observed per run (budget hook, catch_unwind, child processes incl. staggered early-break scenarios).', '§7 C03', 'Coq: termination/container theorems; outcome correspondence release+debug, f64+f32; event-budget hook'),
  'C04': ('proof', 'Partial proof + per-run exact provenance check. Proved: the clamp (returned points lie in both segments\' boxes) for every '
          'instance satisfying the order laws, exactness of every returned point at the exact instance (intersection_exact_all), ring-closing '
          'glue. Per run: every result edge lies on an input edge and every vertex is an input vertex or an intersection of two input edges, '
          'exactly when the float run denotes the exact-arithmetic run of the model, within 1e-9 x magnitude otherwise (rational Python).',
          '§7 C04', 'Coq: intersection kernel theorems; exact-class link by running the model at Q; per-run provenance check'),
  'C05': ('proof', 'The partition law between the five results of one operand pair is decided for every point by the verified scene checker '
-         '(check_scene_sound); area identities are exact rational on the exact class. The pointwise Boolean identities are proved '
-         '(ops_pointwise). The link area = measure of the region is not formalised.', '§7 C05',
+         '(check_scene_sound); area identities are exact rational on the exact class. Proved for all inputs: the pointwise Boolean '
+         'identities (ops_pointwise) and the partition laws at the level of the selection tables of compute_fields.rs for every flag '
+         'assignment, edge type and operand role (tables_partition, tables_pieces_exclusive; refuted for the pinned tables). The link '
+         'area = measure of the region is not formalised. Calls are made through all four trait pairings.', '§7 C05',
          'Coq: verified scene checker on the 5 results; exact rational areas'),
  'C06': ('proof', 'Proved for every fuel and (empty operand) every instance satisfying the order laws / (all eight laws) at the exact instance: '
-         'an empty operand and disjoint boxes give the trivial combination as a list of polygons (TrivialProofs). Commutativity, A op A and '
-         'touching boxes go through the sweep: ring sets compared on the exact class, regions by the verified checker otherwise.', '§7 C06',
+         'an empty operand and disjoint boxes give the trivial combination as a list of polygons (TrivialProofs), which is the named region at '
+         'every point (BoxShortcut); the selection tables are symmetric in the operand roles for intersection, union and xor '
+         '(tables_symmetric). Commutativity, A op A and touching boxes go through the sweep: ring sets compared on the exact class, regions by '
+         'the verified checker otherwise; disjoint boxes are exercised on all four sides with rewritten rings.', '§7 C06',
          'Coq: trivial-path theorems; verified scene checker; correspondence'),
  'C07': ('proof', 'Proved: the four trait impls forward (subject, clipping) in the right order (by computation). Per run: rewritten operands '
          '(rotation, reversal, repeated vertices, closing point, part/hole permutation, Polygon vs MultiPolygon) give the same region (verified '
          'checker) and, on the exact class, the same rings up to start/direction/repeats; the four impls return identical values.', '§7 C07',
          'Coq: wrapper theorems + verified scene checker; representation group sampled'),
- 'C08': ('proof', 'Per run: bit-identical results under scaling by 2^k, identical translated results on the exact class, transformed regions '
-         'under the axis symmetries decided by the verified checker. The parametricity theorem planned in DESIGN.md (covariance of the whole '
-         'model) is NOT done; the only theorem registered is the checker\'s soundness.', '§7 C08',
-         'verified scene checker on transformed runs; bit-exact comparison for scalings'),
+ 'C08': ('proof', 'Translation and scaling clauses PROVED for all inputs over exact arithmetic: the abstraction theorem of the whole model '
+         '(Paramcoq, binary parametricity, axiom-free) instantiated with the relations "differs by x -> k*x+tx, y -> k*y+ty" shows that the '
+         'run on transformed operands ends the same way (same panic site / budget) or returns a result of identical structure with '
+         'transformed coordinates (C08_similarity_covariant, every configuration, budget, operation, pairing; k > 0 rational). The '
+         'binary64 statement follows per input on the exact class; bit-identical results under scaling by 2^k are compared per run. Mirror, '
+         'transpose and quarter turn change the sweep itself: transformed regions are decided per run by the verified checker.', '§7 C08',
+         'Coq: parametricity (abstraction theorem of the whole model) for translation/scaling; verified scene checker for the axis symmetries; bit-exact comparison for 2^k scalings'),
  'C09': ('proof', 'Proved: the boxes the shortcut looks at are exactly min/max over edge start points (every instance), and when they are '
-         'disjoint the call returns the trivial combination. Per run: adding a far part changes the result only by that part (ring sets on '
-         'the exact class, regions by the verified checker).', '§7 C09', 'Coq: bounding-box and shortcut theorems; verified scene checker'),
+         'disjoint the call returns the trivial combination, which is the named region at every point of the plane (exact instance, '
+         'C09_shortcut_returns_named_region: regions of rings inside disjoint boxes are disjoint). Per run: adding a far part changes the '
+         'result only by that part (rings modulo start/direction on the exact class, regions by the verified checker); operands straddling '
+         'each other\'s boxes exercise the shortcut and early-exit conditions.', '§7 C09', 'Coq: bounding-box and shortcut theorems; verified scene checker'),
  'C10': ('proof', 'The f32 instantiation has its own bit-exact model instance (NB32) and goes through the same correspondence; per run the f32 '
          'result is the named region (verified checker, tolerance 1e-4 x magnitude when rounded) and equals the f64 result coordinate for '
-         'coordinate when both runs denote the exact-arithmetic run.', '§7 C10', 'second model instance + correspondence; verified scene checker'),
+         'coordinate when both runs denote the exact-arithmetic run (C10_exact_agree: two instantiations that are both in the exact class '
+         'agree). The orientation predicate and the two public orders are compared between f32, f64 and both bit-exact models on '
+         'segment pairs representable in both (nearly collinear points whose plain determinant has the wrong sign, mixed magnitudes, signed '
+         'zeros).', '§7 C10', 'second model instance + correspondence; exact-class link theorem; verified scene checker'),
  'C11': ('proof', 'Per run: results fed back as operands (left or right, with an independent operand or A/B again) give the pointwise '
-         'combination, decided for every point by the verified checker. The composition step is the checker\'s soundness applied twice.',
-         '§7 C11', 'verified scene checker on chained runs'),
+         'combination, decided for every point by the verified checker. The composition step is proved (C11_chain_law: C01 of the first '
+         'call, C02\'s reading clause of its result and C01 of the second call give op\'(op(a,b),c) at every clear point).',
+         '§7 C11', 'Coq: composition theorem + verified scene checker on chained runs'),
  'C12': ('other', 'Audit + correspondence under histories and schedules: a syntactic purity audit of lib/src and 16 threads x rounds x cases in '
          'shuffled orders compared with the single-threaded value, a fresh process and the model\'s value; operands compared after every '
-         'call. The model is a function by construction (definitional).', '§7 C12', 'purity audit + multi-threaded differential runs'),
- 'C13': ('proof', 'Proved: exact bounding boxes of fill_queue for every instance. Per run on the complete event vectors: mutual links, '
-         'left-first, non-zero length (all families); no improper contact between any two sub-segments and exact coverage of every input '
-         'edge (exact families, rational Python). Bit-exact correspondence of the full event vector with the model.', '§7 C13',
+         'call; calls with ONE object passed as both operands compared with calls on two equal values. The model is a function by '
+         'construction (definitional).', '§7 C12', 'purity audit + multi-threaded differential runs'),
+ 'C13': ('proof', 'Proved for every instance and every input: exact bounding boxes of fill_queue, and the first clause in full — every event '
+         'in the queue after fill_queue and every event returned by subdivide is one end of a mutually linked pair (partner\'s partner is '
+         'the event, distinct, same operand and contour), as an invariant of the whole sweep loop through divide_segment, '
+         'possible_intersection, compute_fields, the std heap and the splay tree with no assumption on the comparators '
+         '(C13_subdivided_events_linked). Per run on the complete event vectors: left-first, non-zero length (all families); no improper '
+         'contact between any two sub-segments and exact coverage of every input edge (exact families, rational Python). Bit-exact '
+         'correspondence of the full event vector with the model, all four operations, also at scales 2^-60 .. 2^40.', '§7 C13',
          'Coq: queue-filling theorems; correspondence on event vectors; exact planarity check'),
  'C14': ('proof', 'Proved for every instance: the selection tables (tables_correct), flag propagation incl. vertical predecessors '
          '(propagation_correct, propagation_first), the twin rule; both refuted for the pinned code. compute_fields is tied to the model '
          'EXHAUSTIVELY (every combination of its inputs executed on both sides). Per run: the flags of every sub-segment against exact '
          'crossing-number membership (rational Python).', '§7 C14',
          'Coq: decision-table theorems; exhaustive correspondence of compute_fields; per-run flag check'),
- 'C15': ('proof', 'Proved: the event order never answers Equal (every instance, every store), the segment order is reflexive-Equal, and the '
-         'consumer theorem (asymmetry => the bubble sort terminates sorted). Antisymmetry, transitivity, lexicographic structure and agreement '
-         'with the vertical order are checked exhaustively on all lattice segment pairs and on the event sets of generated inputs; the '
-         'planned algebraic proofs of antisymmetry/transitivity are NOT done.', '§7 C15',
+ 'C15': ('proof', 'Proved: the event order never answers Equal (every instance, every store); it orders by x, then y, then right-before-left '
+         '(every instance with the order laws); at the exact instance events at one point with equal left flags are ordered '
+         'antisymmetrically by the orientation of their partners (non-collinear) resp. by the operand (collinear, different operands), and '
+         'collinear partners of one operand are proved to be the only gap; the segment order answers Equal exactly for the identical segment '
+         'and is antisymmetric whenever the event order decides which left event comes first (every instance); the consumer theorem '
+         '(asymmetry => the bubble sort terminates sorted). Transitivity and agreement with the vertical order are NOT proved: they are '
+         'checked exhaustively on all lattice segment pairs, on float pairs in both precisions against both bit-exact models (signed '
+         'zeros, nearly collinear points with adversarially wrong plain determinants) and on the event sets of generated inputs.', '§7 C15',
          'Coq: order theorems; exhaustive lattice correspondence; all-pairs/all-triples checks'),
  'C16': ('proof', 'Proved at the exact instance for all finite segments: intersection answers None exactly for disjoint closed segments and every '
          'returned point lies on both (crossing, parallel and collinear cases); for every instance with the order laws the point lies in both '
@@ -108,7 +135,7 @@ def main():
             'engine': 'coq-model+correspondence',
             'level_claimed': {'category': cat, 'text': text, 'design_ref': 'DESIGN.md ' + ref},
             'level_note': COMMON_NOTE + ('Known findings (known_findings.json) are reported as KNOWN-FINDING lines and attributed only by '
-                                         'call site + class (outside the exact class, exactly degenerate arrangement, reproduced by the bit-exact model).'),
+                                         'call site + class (outside the exact class, reproduced by the bit-exact model, and the class condition of the finding decided exactly over the rationals).'),
             'technique': tech,
         })
     m = {
@@ -131,8 +158,8 @@ def main():
         ],
         'checks': checks,
         'not_applicable': [],
-        'notes': 'Every property is claimed. See DESIGN.md §7 for what is a theorem and what is decided per run; known_findings.json for N1-N4 '
-                 'and the three fix: commits (F1, F2, S1).',
+        'notes': 'Every property is claimed. See DESIGN.md §7 and §14 for what is a theorem and what is decided per run; known_findings.json for '
+                 'N1-N6 and the three fix: commits (F1, F2, S1); seeded/ for 36 independently written breaking changes and which checks catch them.',
     }
     with open(os.path.join(ROOT, 'MANIFEST.json'), 'w') as f:
         json.dump(m, f, indent=1)
